@@ -171,6 +171,33 @@ func init() {
 			return out
 		},
 	}
+	plans["C07"] = &plan{
+		rule:        "documents above 8 KiB (dense/number/string-heavy arrays needing 1,2,15,16,17,18,33,64 (thorough: 300, 1000) index buffers, structured documents, NDJSON; invalid ones failing at the first token, in the middle, at the end, only in stage 1, in both stages, with an unclosed scope or an extra closer) parsed under each schedule policy (natural, consumer-lag: stage 2 held after every receive until the channel is full and stage 1 is at its next send; producer-lag: stage 1 held at every slot acquisition until stage 2 has released everything and waits; alternate; random yields) x GOMAXPROCS 1,2,4,16 x both kernels, in the plain and the race build. The hook events feed a shadow-ownership monitor (a slot may not be acquired while an older buffer in it is unreleased), a content monitor (buffer at release == snapshot at send), a history checker (buffers received exactly once in order with the sent length, terminator on every path, channel empty after return) and an outcome oracle (error-ness = reference verdict; tape and string buffer word-identical to the unforced schedule, whose document equals the reference tree). A deadlock ends the worker through the Go runtime's detector (plain build) or the watchdog + goroutine dump (race build). Distinct non-trivial = async parses with >= 2 buffers, by (document, schedule signature)",
+		assumptions: append([]string{"interleavings are forced at the hook points only; preemption between hooks is left to the Go scheduler and the GOMAXPROCS variation"}, commonAssumptions...),
+		jobs: func(tier string) []*job {
+			return []*job{
+				{variant: "plain", mode: "main", shards: 8, maxResume: 3, gomaxprocs: 16, weight: 2},
+				{variant: "race", mode: "main", shards: 4, maxResume: 0, gomaxprocs: 16, weight: 2, quickTimeout: 6 * time.Minute, thoroughTimeout: 40 * time.Minute, stage: 1},
+			}
+		},
+		require: func(tier string, c, m map[string]int64, s map[string]map[string]struct{}) []string {
+			var out []string
+			if m["max_live_slots"] != m["ring_slots"] || m["ring_slots"] == 0 {
+				out = append(out, fmt.Sprintf("the ring was never observed full (max live %d of %d slots)", m["max_live_slots"], m["ring_slots"]))
+			}
+			out = append(out, need(c, "handoffs_with_one_live_slot_seen", 50)...)
+			out = append(out, need(c, "stage2_early_exit_drains", 50)...)
+			out = append(out, need(c, "parses_that_filled_the_ring", 50)...)
+			out = append(out, need(c, "async_parses", 500)...)
+			if c["stall_budget_exhausted"] > 0 {
+				out = append(out, fmt.Sprintf("stall budget exhausted %d times: forced schedules were not reached", c["stall_budget_exhausted"]))
+			}
+			if len(s["schedule_signatures"]) < 100 {
+				out = append(out, fmt.Sprintf("only %d distinct schedule signatures", len(s["schedule_signatures"])))
+			}
+			return out
+		},
+	}
 	plans["C10"] = std("documents (strings holding every byte value and every pair of escape-needing bytes, every number kind, the C02 document workload, NDJSON) fresh and after seeded histories of in-place replacements and deletions; marshalled from the root iterator (MarshalJSON and MarshalJSONBuffer with a prefix), from single-value-scoped inner iterators (AdvanceIter / NextElementBytes / FindKey), Array.MarshalJSON and Elements.MarshalJSON. Each output must be valid JSON per the reference recogniser (valid UTF-8, well-formed surrogates, roots separated by LF), denote the model document (strings byte-equal, member order, numbers numerically equal) and be a fixed point of parse+marshal; a non-finite float placed with SetFloat must make every marshaller return an error. Distinct non-trivial = marshalled tapes whose text holds a container or an escape, by (document, edit history) hash", 16,
 		func(c, m map[string]int64) []string {
 			out := need(c, "edited_tapes", 1000)
